@@ -223,6 +223,14 @@ def handle (req : Json) : Except String Json := do
     return Json.mkObj [
       ("mech", ordsJ mech), ("spec", ordsJ spec), ("has_qualified", ordsJ hasq),
       ("n_qualified", (quals.length : Nat)),
+      ("expansions_complete", expansionsComplete c segs q),
+      ("below_caps", m.groups.all (belowCaps c segs)),
+      ("rx_prefix_ok", m.groups.all (rxPrefixOk c segs)),
+      ("rx_prefix_miss", ordsJ (segs.map (fun s => (List.range s.docs.length).filter (fun o =>
+        match s.docs[o]? with | some d => rxPrefixMiss c m d | none => false)))),
+      ("covered", coveredByScoredTerms c segs q root),
+      ("incomplete_groups", Json.arr (((m.groups.filter (fun g => !groupComplete c segs g)).map
+        (fun g => Json.mkObj [("fields", Json.arr (g.fields.map strJ).toArray), ("term", strJ g.term), ("score", g.score)]))).toArray),
       ("ids", Json.arr ((SL.Query.search c segs q root).map strJ).toArray)]
   | _ => throw s!"C07: unknown op {op}"
 
